@@ -81,7 +81,8 @@ class BuiltinBroachingCodeGenerator(BroachingCodeGenerator):
         namespace = BuiltinCascadeNamespace(occupied={*signature.parameters.keys(), closure_name})
         state = self._create_state(namespace=namespace)
 
-        namespace.add_outer_constant("_closure_signature", signature)
+        # name of closure can coincide with any name, so constants of the module are mangled
+        signature_var = state.register_mangled("_closure_signature", signature)
         no_types_signature = signature.replace(
             parameters=[param.replace(annotation=Signature.empty) for param in signature.parameters.values()],
             return_annotation=Signature.empty,
@@ -90,7 +91,7 @@ class BuiltinBroachingCodeGenerator(BroachingCodeGenerator):
             body = self._gen_plan_element_dispatch(state, self._plan)
             builder += "return " + ast.unparse(body)
 
-        builder += f"{closure_name}.__signature__ = _closure_signature"
+        builder += f"{closure_name}.__signature__ = {signature_var}"
         builder += f"{closure_name}.__name__ = {closure_name!r}"
         return builder.string(), namespace.all_constants
 
